@@ -38,19 +38,40 @@ def rules(rep, m):
     put = m.need("cmb_priorityqueue_put")
     pcx = FuncCtx(m, put)
     enq = [c for c in walk(put.body) if c["kind"] == "CallExpr" and callee_ref(c) == "cmi_hashheap_enqueue"]
-    if len(enq) != 1:
-        raise AnalysisBroken("cmb_priorityqueue_put: expected one enqueue")
-    a = [pcx.canon(x) for x in kids(enq[0])[1:]]
+    if not enq:
+        raise AnalysisBroken("cmb_priorityqueue_put: no enqueue found")
     pn = [p["name"] for p in put.params]
-    r1.instance("put enqueues (%s)" % ", ".join(a))
-    rep.sample({"rule": "R-C12-1", "put_enqueue": a})
-    ok = a[0] == "&%s->queue" % pn[0] and a[1] == pn[1] and a[5] == "0" and a[7] == pn[2]
-    if not ok:
-        rep.finding(r1, put.name, "put:args", "put enqueues (%s); expected (&queue, object, .., key 0, .., priority)"
-                    % ", ".join(a), where=m.rel(loc(enq[0])))
-        r1.fail()
-    else:
-        r1.ok()
+    for e_ in enq:
+        a = [pcx.canon(x) for x in kids(e_)[1:]]
+        r1.instance("put enqueues (%s)" % ", ".join(a))
+        rep.sample({"rule": "R-C12-1", "put_enqueue": a})
+        ok = a[0] == "&%s->queue" % pn[0] and a[1] == pn[1] and a[5] == "0" and a[7] == pn[2]
+        if not ok:
+            rep.finding(r1, put.name, "put:args", "put enqueues (%s); expected (&queue, object, .., key 0, .., priority)"
+                        % ", ".join(a), where=m.rel(loc(e_)))
+            r1.fail()
+        else:
+            r1.ok()
+        # cancellation, reprioritisation and the position query go by handle: every enqueue hands its handle to the caller
+        if len(put.params) > 3:
+            hl = put.params[3]["name"]
+            stored = False
+            for l_, r_, k_, n_ in inv.stores(put):
+                l0 = strip(l_, casts=True)
+                if l0["kind"] == "UnaryOperator" and l0.get("opcode") == "*" and pcx.canon(kids(l0)[0]) == hl and r_ is not None and k_ == "=":
+                    src = pcx.resolve(r_)
+                    if src is e_ or any(y is e_ for y in walk(src)):
+                        extra = [cd for cd in inv.dominating_conditions(pcx, put, n_) if cd not in inv.dominating_conditions(pcx, put, e_)]
+                        if all(cd in ("(%s != NULL)" % hl, "!(%s == NULL)" % hl, hl) for cd in extra):
+                            stored = True
+            r1.instance("the handle of this enqueue is stored through '%s': %s" % (hl, stored))
+            if not stored:
+                rep.finding(r1, put.name, "put:handle-not-stored", "on the path through the enqueue at line %s the handle of the queued "
+                            "object is not stored through '%s': the caller keeps an old (or zero) handle, so a later cancel, "
+                            "reprioritise or position query names another object" % (e_.get("line"), hl), where=m.rel(loc(e_)))
+                r1.fail()
+            else:
+                r1.ok()
     pos = m.need("cmb_priorityqueue_position")
     xcx = FuncCtx(m, pos)
     ind = [c for c in walk(pos.body) if c["kind"] == "CallExpr" and callee_ref(c) is None]
